@@ -192,6 +192,57 @@ def parent_file(case):
     return core.SparseFile(total * SECTOR, {}, salt=case["parent"]["salt"])
 
 
+def write_case_dir(case, d):
+    """the descriptor, its extent files and (for a snapshot disk) the parent disk, written into directory d -> descriptor path"""
+    for e in case["extents"]:
+        fh, _ = extent_file(e)
+        with open(os.path.join(d, e["name"]), "wb") as w:
+            w.write(fh.content(0, fh.size))
+    if case.get("parent"):
+        pf = parent_file(case)
+        with open(os.path.join(d, "parent disk-flat.vmdk"), "wb") as w:
+            w.write(pf.content(0, pf.size))
+        with open(os.path.join(d, "parent disk.vmdk"), "w") as w:
+            w.write('# Disk DescriptorFile\nversion=1\nCID=%s\nparentCID=ffffffff\ncreateType="monolithicFlat"\n'
+                    'RW %d FLAT "parent disk-flat.vmdk" 0\n' % (case["parent"]["cid"], pf.size // SECTOR))
+    p = os.path.join(d, case["desc_name"])
+    with open(p, "wb") as w:
+        w.write(case["text"].encode())
+    return p
+
+
+def mat_with(case, flist):
+    """materialiser of an xplan ((extent index, segment) pairs) over the extent files flist"""
+    pfile = parent_file(case) if case.get("parent") else None
+
+    def mat(p):
+        out = []
+        for it in p:
+            _, i, seg = it
+            fh, infl = flist[i]
+            out.append(core.materialise([tuple(seg)], file=fh, infl=lambda d, k, n, infl=infl: infl[d][0][k:k + n],
+                                        parent=(lambda o, n: pfile.content(o, n).ljust(n, b"\0")) if pfile else None))
+        return b"".join(out)
+    return mat
+
+
+def files_and_intent_terms(case):
+    """-> (let-bindings f0.., files list term, intent list term) of a multi-extent case"""
+    exts = case["extents"]
+    fterms = []
+    for e in exts:
+        if "sparse" in e:
+            fh, _ = c02.build_image(e["sparse"])
+            fterms.append(c02.file_term(e["sparse"], fh))
+        else:
+            fterms.append(f"{{| f_size := {Z(e['fsize'])}; f_hdr := fun _ => []; f_u32 := look []; f_u64 := look [] |}}")
+    lets = "".join(f"let f{i} := {t} in " for i, t in enumerate(fterms))
+    intent = "; ".join(f"({1 if 'sparse' in e else 0}, f{i}, {Z(e['sectors'] * SECTOR)}, {Z(e.get('start') or 0)})"
+                       for i, e in enumerate(exts))
+    files = "; ".join(f"({cps(e['name'])}, f{i})" for i, e in enumerate(exts))
+    return lets, files, intent
+
+
 def spec_range(total_sectors, kind, a, b):
     size = total_sectors * SECTOR
     if kind == "sectors":
@@ -242,22 +293,8 @@ class MultiSuite(Suite):
         try:
             try:
                 if case["mode"] == "descriptor":
-                    for e in case["extents"]:
-                        fh, _ = extent_file(e)
-                        with open(os.path.join(d, e["name"]), "wb") as w:
-                            w.write(fh.content(0, fh.size))
-                    if case.get("parent"):
-                        pf = parent_file(case)
-                        with open(os.path.join(d, "parent disk-flat.vmdk"), "wb") as w:
-                            w.write(pf.content(0, pf.size))
-                        with open(os.path.join(d, "parent disk.vmdk"), "w") as w:
-                            w.write('# Disk DescriptorFile\nversion=1\nCID=%s\nparentCID=ffffffff\ncreateType="monolithicFlat"\n'
-                                    'RW %d FLAT "parent disk-flat.vmdk" 0\n' % (case["parent"]["cid"], pf.size // SECTOR))
-                    p = os.path.join(d, case["desc_name"])
-                    with open(p, "wb") as w:
-                        w.write(case["text"].encode())
                     from pathlib import Path
-                    v = VMDK(Path(p))
+                    v = VMDK(Path(write_case_dir(case, d)))
                 else:
                     v = VMDK([extent_file(e)[0] for e in case["extents"]])
             except Exception as e:  # noqa: BLE001
@@ -374,21 +411,8 @@ class MultiSuite(Suite):
             fs.append(Finding("impl_vs_model", f"model size/sectors {mres[1][1:]} vs implementation "
                               f"{impl_res['size']}/{impl_res['sector_count']}", f"vmdk:{mode}:size:model"))
 
-        pfile = parent_file(case) if case.get("parent") else None
-
-        def mat_with(flist):
-            def mat(p):
-                out = []
-                for it in p:
-                    _, i, seg = it
-                    fh, infl = flist[i]
-                    out.append(core.materialise([tuple(seg)], file=fh, infl=lambda d, k, n, infl=infl: infl[d][0][k:k + n],
-                                                parent=(lambda o, n: pfile.content(o, n).ljust(n, b"\0")) if pfile else None))
-                return b"".join(out)
-            return mat
-
-        mat_spec = mat_with(files)
-        mat_model = mat_with(model_files)
+        mat_spec = mat_with(case, files)
+        mat_model = mat_with(case, model_files)
         for (kind, a, b), r, cv in zip(case["reqs"], impl_res["reqs"], items):
             _, model_v, spec_v = cv
             s0, cnt, skip, want = spec_range(total, kind, a, b)
